@@ -23,6 +23,20 @@ func PowerSet(original []string) *[][]string {
 	return &result
 }
 
+// forEachCombination visits every non-empty subset of original in the order PowerSet lists them
+func forEachCombination(original []string, visit func(subSet []string)) {
+	elements := uint(len(original))
+	for index := uint64(1); elements >= 64 || index < uint64(1)<<elements; index++ {
+		var subSet []string
+		for j, elem := range original {
+			if j < 64 && index&(uint64(1)<<uint(j)) > 0 {
+				subSet = append(subSet, elem)
+			}
+		}
+		visit(subSet)
+	}
+}
+
 func PowerSetSize(elements int) int {
 	if elements <= 0 {
 		return 0
